@@ -301,7 +301,7 @@ class ProtocolMonitor(Monitor):
     def _note_pulse(self, r: Runner, ev: Event) -> None:
         """After a successful add: the atoms it drove were last used at its end; a post-phase-shift acts there."""
         c = ev.post["chans"].get(ev.op["ch"])
-        if not c or not c["slots"] or c["slots"][-1]["kind"] not in ("pulse", "ddelay") or c["detmap"] is not None:
+        if not c or not c["slots"] or c["slots"][-1]["kind"] not in ("pulse", "ddelay"):
             return
         sl = c["slots"][-1]
         sh = self._shadow(r)
@@ -309,7 +309,8 @@ class ProtocolMonitor(Monitor):
         last = sh["last"].setdefault(basis, {})
         for q in sl["targets"]:
             last[q] = max(last.get(q, 0), sl["tf"])
-        pps = ev.op["pulse"].get("pps") if ev.name == "add" else ev.op.get("pps")
+        # (a detuning waveform on a DMM drives its atoms in the ground-rydberg basis like any other pulse)
+        pps = ev.op["pulse"].get("pps") if ev.name == "add" else (ev.op.get("pps") if ev.name == "add_eom_pulse" else None)
         if pps and not ev.op.get("cpd") and isinstance(pps, (int, float)):
             bar = sh["bar"].setdefault(basis, {})
             for q in sl["targets"]:
@@ -340,7 +341,7 @@ class ProtocolMonitor(Monitor):
             self._note_shift(r, ev)
         if ev.name in ADD_OPS:
             self._check_add(r, ev)
-            if ev.name in ("add", "add_eom_pulse"):
+            if ev.name in ("add", "add_eom_pulse", "add_dmm_detuning"):
                 self._note_pulse(r, ev)
             if ev.name in ("add", "add_dmm_detuning"):
                 c = ev.post["chans"].get(ev.op["ch"])
